@@ -348,6 +348,51 @@ def bounded(chk):
     chk.samples.append({"bounded-case": {"matrix": [[0, 2], [5, 1]], "alphas": alphas}})
 
 
+def crosscheck(chk):
+    """engine vs CPython (DESIGN 7.2): every metric of metrics.py executed symbolically on a (2,2) matrix of symbolic cells, the cells
+    bound to concrete dyadic values; the model value (with its NaN tag) must equal what the real function returns"""
+    from fractions import Fraction
+    from z3 import Solver, sat
+    from vf.crosscheck import sym_value
+    from vf.framework import real_repo
+    real_repo()
+    from score_analysis import metrics
+    mats = [[[0, 0], [0, 0]], [[3, 1], [2, 6]], [[0, 5], [0, 2]], [[4, 0], [0, 0]], [[0.5, 0.25], [0.125, 0.125]], [[7, 0], [3, 0]]]
+    names = list(BASIC) + list(RATES) + list(COMPL) + list(ALIAS)
+    n_ok = 0
+    for name in names:
+        ex = new_exec()
+        path = Path()
+        m, cells, _ = mk_matrix(ex, path, "scalar")
+        try:
+            res, p2 = call(ex, path, "metrics", name, m)
+        except Exception as e:      # noqa: BLE001
+            chk.notes.append(f"engine cross-check skipped for metrics.{name}: {type(e).__name__}")
+            continue
+        if res is None:
+            continue
+        for M in mats:
+            sol = Solver()
+            sol.set("timeout", 10000)
+            sol.add(p2.pc)
+            for k_, v_ in zip("abcd", (M[0][0], M[0][1], M[1][0], M[1][1])):
+                fr = Fraction(v_)
+                sol.add(cells[k_] == RealVal(f"{fr.numerator}/{fr.denominator}"))
+            if sol.check() != sat:
+                chk.notes.append(f"engine cross-check: no model for metrics.{name} on {M}")
+                continue
+            got = sym_value(sol.model(), res)
+            with np.errstate(all="ignore"):
+                real = float(getattr(metrics, name)(np.array(M, dtype=float)))
+            if not ((np.isnan(got) and np.isnan(real)) or abs(got - real) <= 1e-12):
+                chk.notes.append(f"engine cross-check: symbolic execution of metrics.{name} gives {got} but CPython gives {real} for {M}")
+                chk.undecided.append(f"C04/engine-crosscheck[{name}]: symbolic execution and CPython disagree on a concrete input (see notes)")
+                break
+            n_ok += 1
+    chk.crosscheck += n_ok
+
+
 def run(chk):
     prove(chk, build, replay=replay)
     bounded(chk)
+    crosscheck(chk)
